@@ -91,12 +91,13 @@ CHECKS = {
              "with its value, once; vCPU thread counts return to their initial value. Tied to the code by generated programs on 1..4 real vCPUs "
              "(OS threads) with and without work stealing: threads created by vCPU mains or by other threads, joinable or detached, stealable or "
              "not, yielding, sleeping, migrating themselves, joining; an in-harness atomic flag independently detects simultaneous execution, a "
-             "watchdog detects lost threads. Finding F18 (idle stealers deadlock) shown by the check and repaired; F19, F20 recorded as known",
+             "watchdog detects lost threads. Findings F18 (idle stealers deadlock) and F19/F20 (run-queue lock without a store-load barrier) shown by the check and repaired; F22 recorded as known",
         note="trusted: Lean kernel + 3 standard axioms; PARTIAL: runs are real races on real time (not every interleaving; a violation that needs a "
              "rare interleaving is found only with some probability, the quick tier runs 400 programs, thorough 3000); the release of thread "
              "stacks (pooled / default allocator) is not observed - libphoton is not ASan-instrumented in this harness; thread pools, "
-             "thread_create11/go and migration of OTHER threads are not exercised; hangs of programs with work stealing are attributed to the "
-             "known livelock F20 unless their rate exceeds 5% (F18 hung 40%); crashes with work stealing and self-migration are attributed to F19",
+             "thread_create11/go and migration of OTHER threads are not exercised; a crash of a program with work stealing is attributed to the "
+             "recorded rare residual crash F22 (about 1 of 20 000 programs) unless more than max(2, 2%) of a run's work-stealing programs crash; "
+             "a hang is reported at once",
         technique="Lean 4 invariants over a lifecycle automaton + run-time trace validation of the real multi-vCPU runtime",
         design="§5 C05"),
     "C06": dict(
